@@ -8,15 +8,15 @@ import (
 )
 
 type T struct {
-	mu   sync.RWMutex
-	once sync.Once
-	wg   sync.WaitGroup
-	ptr  atomic.Pointer[int]
-	a    int
-	b    int
-	c    chan int
-	m    map[string]int
-	name string
+	mu     sync.RWMutex
+	once   sync.Once
+	wg     sync.WaitGroup
+	ptr    atomic.Pointer[int]
+	a      int
+	b      int
+	c      chan int
+	m      map[string]int
+	name   string
 	closed bool
 }
 
@@ -186,9 +186,9 @@ func (t *T) OtherObject(o *T) {
 
 // SyncUses: method calls on sync values are uses; delete writes the map field.
 func (t *T) SyncUses() {
-	t.ptr.Store(nil) // Use
-	t.wg.Wait()      // Use
-	delete(t.m, "k") // Wr []
+	t.ptr.Store(nil)     // Use
+	t.wg.Wait()          // Use
+	delete(t.m, "k")     // Wr []
 	t.once = sync.Once{} // Wr []
 }
 
@@ -230,4 +230,39 @@ func (t *T) Reopen() {
 	t.closed = false // note =false
 	t.mu.Unlock()
 	t.wg.Wait() // conds []
+}
+
+// UnlockInHelper (audit M11): the helper releases the lock its caller took.  The extractor cannot follow
+// that: the caller's write AFTER the call is still recorded under [mu Ex] (wrong), which is why the Unlock
+// site of the helper - recorded with a lexical lock set that lacks mu - must make the table fail
+// (coq/model/Race.v unlock_failures; "unbalanced-unlock" line of the fixture).
+func (t *T) UnlockInHelper() {
+	t.mu.Lock()
+	t.releaseForCaller()
+	t.a = 7 // Wr: really unlocked; recorded as lex=[mu:Ex]
+}
+
+func (t *T) releaseForCaller() {
+	t.mu.Unlock()
+}
+
+// LatchThenWait: history facts across calls.  setLatch executes `t.closed = true` on every path before it returns
+// (its summary); waitAfter is called only after it, so "set:$.closed" is an ENTRY FACT of waitAfter and, through the
+// go statement, of its closure - although neither mentions the assignment lexically.
+func (t *T) LatchThenWait() {
+	t.setLatch()
+	t.waitAfter()
+}
+
+func (t *T) setLatch() {
+	t.mu.Lock()
+	t.closed = true
+	t.mu.Unlock()
+}
+
+func (t *T) waitAfter() {
+	t.wg.Wait()
+	go func() {
+		t.wg.Wait()
+	}()
 }
